@@ -1320,6 +1320,37 @@ pub mod verif {
         super::blocks_message(blocks)
     }
 
+    /// [`super::presences_message`].
+    pub fn presences_message(
+        presences: Vec<(Cid, BlockPresenceType)>,
+    ) -> Option<(Bytes, usize)> {
+        super::presences_message(presences)
+    }
+
+    /// [`super::extract_next_presence_batch`]; the drained batch is collected.
+    pub fn extract_next_presence_batch(
+        presences: &mut VecDeque<(Cid, BlockPresenceType)>,
+        max_message_size: usize,
+    ) -> Option<Vec<(Cid, BlockPresenceType)>> {
+        super::extract_next_presence_batch(presences, max_message_size).map(|batch| batch.collect())
+    }
+
+    /// The crate-private [`Bitswap`] event loop behind a public name (to be given a
+    /// harness-fed [`TransportService`]).
+    pub struct VerifBitswap(Bitswap);
+
+    impl VerifBitswap {
+        /// `Bitswap::new`.
+        pub fn new(service: TransportService, config: Config) -> Self {
+            Self(Bitswap::new(service, config))
+        }
+
+        /// The unmodified event loop.
+        pub async fn run(self) {
+            self.0.run().await
+        }
+    }
+
     /// The `(prefix, data)` payload entries of an encoded Bitswap message (prost decoder of
     /// the crate's schema), `None` if it does not decode.
     pub fn decode_payload(message: &[u8]) -> Option<Vec<(Vec<u8>, Vec<u8>)>> {
